@@ -120,10 +120,10 @@ def work(job):
             "detail": dict(detail, file=rel, kind=kind, check_exit=out.check.ended(), edit_exit=out.edit.ended()),
             "case": {"files": ({rel: out.files[rel].before} if rel != "*" else {r: f.before for r, f in list(out.files.items())[:8]}),
                      "structured": structured}})
-    if i == 0 and kind == "gen":
+    if i < 40 and kind == "gen":
         fo = next((f for f in out.files.values() if f.tokens), None)
         if fo:
-            res["samples"].append({"file": fo.rel, "reported(line,col)": [core.line_col(fo.before, o) for o in sorted(fo.reported)[:5]],
+            res.setdefault("samples" if i == 0 else "samples_fallback", []).append({"file": fo.rel, "reported(line,col)": [core.line_col(fo.before, o) for o in sorted(fo.reported)[:5]],
                                    "inserted(line,col)": [core.line_col(fo.before, t["off"]) for t in fo.tokens[:5]],
                                    "total": out.check.total_missing(), "printed_inserted": out.edit.inserted(),
                                    "check_exit": out.check.rc, "edit_exit": out.edit.rc})
